@@ -142,3 +142,25 @@ Proof. split; [intros l Hl k Hk; cbn in Hl; intuition subst; cbn; tauto | intros
 Example ex_delete_flatten :
   flatten (EDot (EDot ex_a 1 OcStart) 2 OcCont) = Some (ex_a, [LDot 1] ++ [LDot 2], false).
 Proof. reflexivity. Qed.
+
+(* this passing: v3?.p1?.(g(1))  =>  (_a = v3 == null ? void 0 : v3.p1) == null ? void 0 : _a.call(v3, g(1)) *)
+Definition ex_P := EDot (EId 3) 1 OcStart.
+Definition ex_eo := ECall ex_P [ex_b] OcStart.
+Example ex_nested_model :
+  lower all_features ex_eo
+  = EIf (EEqNull false (EAssign (ETmp 0) (EIf (EEqNull false (EId 3)) EUndef (EDot (EId 3) 1 OcNone))))
+        EUndef (ECallThis (ETmp 0) (EId 3) [ex_b]).
+Proof. reflexivity. Qed.
+Example ex_nested_hyps :
+  capture (EId 3) 0 = (EId 3, EId 3, 0) /\ frag ex_P /\ flatten ex_P = Some (EId 3, [LDot 1], false) /\
+  frag ex_eo /\ flatten ex_eo = Some (ex_P, [LCall [ex_b]], true) /\
+  cap_ok Z wit_world (EId 3) /\ call_intact Z wit_world.
+Proof. repeat split; try reflexivity; try exact I; [right; exact ex_const_var | exact ex_call_intact]. Qed.
+(* a?.b.c?.(x) : the callee chain has two links, this is the captured value of a?.b *)
+Example ex_nested2_model :
+  lower all_features (ECall (EDot (EDot ex_a 1 OcStart) 2 OcCont) [ENum 1] OcStart)
+  = EIf (EEqNull false (EAssign (ETmp 2)
+          (EIf (EEqNull false (EAssign (ETmp 0) ex_a)) EUndef
+               (EDot (EAssign (ETmp 1) (EDot (ETmp 0) 1 OcNone)) 2 OcNone))))
+        EUndef (ECallThis (ETmp 2) (ETmp 1) [ENum 1]).
+Proof. reflexivity. Qed.
